@@ -104,6 +104,9 @@ pub struct IoCase {
     pub duplex_buf: usize,
     /// also send this many bytes in the opposite direction concurrently
     pub reverse_bytes: usize,
+    /// braid stacks: the server-side stream is the writer of the forward direction
+    #[serde(default)]
+    pub server_writes: bool,
 }
 
 fn pattern(i: u64, salt: u64) -> u8 {
@@ -208,6 +211,8 @@ struct Side {
     reads: u64,
     /// highest stream position ever offered to a write call (accepted or not)
     offered: usize,
+    /// the writer's final flush() returned Ok: everything accepted before must reach the peer
+    flushed_at_end: bool,
 }
 
 async fn run_writer(ep: &mut dyn Endpoint, ops: &[WOp], shutdown: bool, salt: u64, side: &std::cell::RefCell<Side>) {
@@ -297,6 +302,7 @@ async fn run_writer(ep: &mut dyn Endpoint, ops: &[WOp], shutdown: bool, salt: u6
         side.borrow_mut().write_err = Some(e.kind().to_string());
         return;
     }
+    side.borrow_mut().flushed_at_end = true;
     if shutdown {
         match ep.shutdown().await {
             Ok(()) => side.borrow_mut().shutdown_done = true,
@@ -433,6 +439,7 @@ fn draw_case(r: &mut Rng, seed: u64) -> IoCase {
         fault,
         duplex_buf: *r.pick(&[1usize, 2, 64, 1024, 65536]),
         reverse_bytes: *r.weighted(&[(3, 0usize), (1, 1), (1, 300), (1, 5000)]),
+        server_writes: r.bool(),
     }
 }
 
@@ -534,7 +541,11 @@ impl Scenario for IoSim {
                             _ => tls_handshake_failed = true,
                         }
                     }
-                    (Box::new(TokioEnd(client)), Box::new(TokioEnd(server)))
+                    if case.server_writes {
+                        (Box::new(TokioEnd(server)), Box::new(TokioEnd(client)))
+                    } else {
+                        (Box::new(TokioEnd(client)), Box::new(TokioEnd(server)))
+                    }
                 }
                 Stack::Duplex => {
                     drop((a, b));
@@ -755,6 +766,16 @@ impl Scenario for IoSim {
                 }
                 if writer_clean && n != expected.len() && (side.shutdown_done || name == "reverse") {
                     Self::viol(&mut out, "bytes_lost", case.stack, format!("{}: writer finished and shut down after {} bytes (+{} prefix) but reader saw only {} before EOF", name, side.sent.len(), pre.len(), n));
+                } else if writer_clean
+                    && n != expected.len()
+                    && side.flushed_at_end
+                    && side.read_err.is_none()
+                    // protocol detection holds back a stream that is still a strict prefix of the
+                    // HTTP/2 preface until more bytes or end-of-stream arrive: nothing to deliver yet
+                    && !(case.stack == Stack::Sniffed && expected.len() < H2_PREFACE.len() && H2_PREFACE.starts_with(&expected))
+                {
+                    // no shutdown: the reader read until the pipes had been quiet for a virtual minute
+                    Self::viol(&mut out, "flushed_bytes_not_delivered", case.stack, format!("{}: writer wrote {} bytes (+{} prefix) and flush() returned Ok, but the reader had received only {} when everything went quiet", name, side.sent.len(), pre.len(), n));
                 }
                 if side.shutdown_done && side.eof_seen == 0 && side.read_err.is_none() {
                     Self::viol(&mut out, "eof_not_propagated", case.stack, format!("{}: writer shut down but reader never saw end-of-stream", name));
